@@ -271,15 +271,50 @@ from vlib import SAN_ENV
 WIDE_ENV = dict(SAN_ENV, ASAN_OPTIONS=SAN_ENV["ASAN_OPTIONS"] + ":hard_rss_limit_mb=3000")
 
 
-def run_robust(exe, lines, line_timeout=15, env=None):
+def run_robust(exe, lines, line_timeout=15, env=None, hang_key=None):
     """feed command lines to a line-protocol driver; a line that kills the driver
     yields "CRASH", one that does not answer within line_timeout seconds "HANG";
-    the driver is restarted on the next line.
+    the driver is restarted on the next line.  hang_key(line): after a HANG, later lines with the same key are not
+    run at all (answer "SKIPPED"), so that one hostile type cannot cost line_timeout per command.
     Returns (outputs, events) with events = [(line index, "CRASH"|"HANG"|"EXIT", rc, stderr tail)]"""
-    outs, events = [], []
-    i = 0
     env = env or WIDE_ENV
-    while i < len(lines):
+    results = [None] * len(lines)
+    events = []
+    hung = set()
+    todo = list(range(len(lines)))
+    while todo:
+        if hang_key:
+            keep = []
+            for k in todo:
+                if hang_key(lines[k]) in hung:
+                    results[k] = "SKIPPED"
+                else:
+                    keep.append(k)
+            todo = keep
+            if not todo:
+                break
+        outs, kind, rc, err = _run_once(exe, [lines[k] for k in todo], line_timeout, env)
+        for k, o in zip(todo, outs):
+            results[k] = o
+        if kind is None:
+            break
+        if kind == "EXIT":
+            events.append((todo[-1], "EXIT", rc, err))
+            break
+        bad = todo[len(outs)]
+        results[bad] = kind
+        events.append((bad, kind, rc, err))
+        if kind == "HANG" and hang_key:
+            hung.add(hang_key(lines[bad]))
+        todo = todo[len(outs) + 1:]
+    return results, events
+
+
+def _run_once(exe, lines, line_timeout, env):
+    """one driver process over the lines; returns (outputs got, None | "EXIT" | "CRASH" | "HANG", rc, stderr)"""
+    outs = []
+    if True:
+        i = 0
         ef = tempfile.TemporaryFile()
         p = subprocess.Popen([exe], stdin=subprocess.PIPE, stdout=subprocess.PIPE, stderr=ef, env=env)
         # the driver reads line by line and flushes after every command: feed everything from a thread-free
@@ -329,13 +364,9 @@ def run_robust(exe, lines, line_timeout=15, env=None):
             err = err[:4000] + "\n[...]\n" + err[-2500:]
         ef.close()
         if got >= want:
-            if rc != 0:
-                events.append((len(lines) - 1, "EXIT", rc, err))
-            break
-        events.append((i + got, "HANG" if hang else "CRASH", rc, err))
-        outs.append("HANG" if hang else "CRASH")
-        i += got + 1
-    return outs[:len(lines)], events
+            return outs[:want], ("EXIT" if rc != 0 else None), rc, err
+        return outs[:got], ("HANG" if hang else "CRASH"), rc, err
+
 
 
 # ---------------------------------------------------------------------------
